@@ -51,7 +51,7 @@ def gen_cases(tier, seed):
                 c["plan_type"] = str(rng.choice(["gaussian", "spline"]))
                 c["interp"] = str(rng.choice(["onsite_direct", "onsite_spline"]))
             c["model"] = "xc1"
-            if rng.random() < 0.25 and fam in ("sl-npa", "sl-np", "vj-mgga", "sdmx", "sl-nst", "sl-ns"):
+            if rng.random() < 0.25 and fam in ("sl-npa", "vj-mgga", "sdmx", "sl-nst"):  # MappedXC2 needs MGGA-level data in eval_xc_cider
                 c["model"] = "xc2"
                 c["mode"] = str(rng.choice(["SEP", "NPOL"]))
                 if c["mode"] == "SEP":
@@ -188,13 +188,9 @@ def _model(case, rec, rng):
     n = 37
     X1 = _feat_data(rng, model.settings, 1, n)
     tagm = "%s,%s" % (mode, mul)
-    # densities are kept outside the band [rhocut/4, 4 rhocut]: NPOL/POL modes apply the cutoff to the SUM of the
-    # spin-scaled channel densities, so the threshold in terms of the total density differs by 2 between nspin
-    # conventions (affects only points inside that band; not decided here)
+    # samples on both sides of the cutoff (all three modes cut on the total resp. per-channel density consistently)
     rc = 0.05
-    band = (X1[0, 0] > rc / 4) & (X1[0, 0] < 4 * rc)
-    X1[0, 0, band] = 4 * rc + X1[0, 0, band]
-    X1[0, 0, ::5] = rc / 10
+    X1[0, 0, ::5] = rc * np.exp(rng.uniform(np.log(0.1), np.log(0.95), size=X1[0, 0, ::5].shape))
     for rhocut in (0.0, rc):
         r1, d1 = model(X1.copy(), rhocut=rhocut)
         X2 = np.concatenate([X1, X1], axis=0)
